@@ -172,16 +172,29 @@ def run_lines(cmd, lines, env=None, parallel=1, timeout=3600):
     size = (len(lines) + n - 1) // n
     chunks = [lines[i:i + size] for i in range(0, len(lines), size)]
     def one(chunk):
-        p = subprocess.run(cmd, input="\n".join(chunk) + "\n", stdout=subprocess.PIPE, stderr=subprocess.PIPE,
-                           text=True, env=env, timeout=timeout)
-        out = p.stdout.split("\n")
-        if out and out[-1] == "":
-            out.pop()
-        if len(out) != len(chunk):
-            # the process died on the op after the last answered one
-            out = out + ["crash rc=%d %s" % (p.returncode, p.stderr.strip().split("\n")[-1][:200] if p.stderr else "")] \
-                  + ["not-run"] * (len(chunk) - len(out) - 1)
-        return out
+        out_all = []
+        rest = chunk
+        restarts = 0
+        while rest:
+            p = subprocess.run(cmd, input="\n".join(rest) + "\n", stdout=subprocess.PIPE, stderr=subprocess.PIPE,
+                               text=True, env=env, timeout=timeout)
+            out = p.stdout.split("\n")
+            if out and out[-1] == "":
+                out.pop()
+            out = out[:len(rest)]
+            out_all += out
+            if len(out) == len(rest):
+                break
+            # the process died on the op after the last answered one: name it, then carry on with the
+            # remaining ops in a fresh process so that one crash does not hide everything behind it
+            last = p.stderr.strip().split("\n")[-1][:200] if p.stderr else ""
+            out_all.append("crash rc=%d %s" % (p.returncode, last))
+            rest = rest[len(out) + 1:]
+            restarts += 1
+            if restarts > 20:
+                out_all += ["not-run"] * len(rest)
+                break
+        return out_all
     with ThreadPoolExecutor(max_workers=n) as ex:
         res = list(ex.map(one, chunks))
     return [l for c in res for l in c]
